@@ -54,10 +54,18 @@ def sh(cmd, cwd=None, env=None, timeout=None):
     e = dict(os.environ)
     if env:
         e.update(env)
+    # own process group, so that a timeout kills everything the command started (hung tests, hung checks)
+    import signal
+    p = subprocess.Popen(cmd, shell=True, cwd=cwd, env=e, stdout=subprocess.PIPE, stderr=subprocess.STDOUT, text=True, start_new_session=True)
     try:
-        p = subprocess.run(cmd, shell=True, cwd=cwd, env=e, capture_output=True, text=True, timeout=timeout)
-        return p.returncode, p.stdout + p.stderr
+        out, _ = p.communicate(timeout=timeout)
+        return p.returncode, out
     except subprocess.TimeoutExpired:
+        try:
+            os.killpg(p.pid, signal.SIGKILL)
+        except ProcessLookupError:
+            pass
+        p.wait()
         return 124, 'timeout'
 
 
